@@ -97,6 +97,33 @@ func runC04(p *core.Prog, r *core.Result) {
 					}
 				}
 			})
+			// or: the spawn is on the true edge of a claim helper that stores the status of its receiver on every
+			// path on which it returns true
+			if cl := claimHelperAt(p, a, pt); !dom && cl != nil {
+				h := core.Callee(cl)
+				rfs := p.CalleeReturnFacts(h, true)
+				all := len(rfs) > 0
+				for _, rf := range rfs {
+					one := false
+					core.Instrs(h, func(in ssa.Instruction) {
+						st, ok := in.(*ssa.Store)
+						if !ok || !core.IsField(st.Addr, pkgRunner, "target", "status") {
+							return
+						}
+						prm, isParam := st.Addr.(*ssa.FieldAddr).X.(*ssa.Parameter)
+						if !isParam {
+							return
+						}
+						for i, q := range h.Params {
+							if q == prm && i < len(cl.Call.Args) && core.Path(cl.Call.Args[i]) == core.Path(g.Call.Args[0]) && p.DominatesModuloFactSet(st, rf.Ret, rf.Facts) {
+								one = true
+							}
+						}
+					})
+					all = all && one
+				}
+				dom = all
+			}
 			okStore = okStore && dom
 		}
 		r.Check(okStore, "R4.2", "runner.(*target).start#go-run", p.InstrPos(g), "the go statement is dominated by the store to status of the same target", "the go statement is not dominated by a store to status of the same target")
@@ -192,11 +219,28 @@ func runC04(p *core.Prog, r *core.Result) {
 
 // checkStartAtomic: in start, the load of status that feeds the idle test and the store of
 // running are not separated by an Unlock of the same mutex, and the spawn is on the idle edge.
-func checkStartAtomic(p *core.Prog, r *core.Result, a *runnerAnchors) {
-	fn := a.start
-	li := p.Locks(fn)
-	var loads []*ssa.UnOp
-	var stores []*ssa.Store
+// claimHelperAt: the call, in start, of a boolean helper of the package that both tests and sets target.status and
+// whose result is known to be true at `at` (nil if there is none).
+func claimHelperAt(p *core.Prog, a *runnerAnchors, at ssa.Instruction) *ssa.Call {
+	var out *ssa.Call
+	for f := range p.FactsAt(at) {
+		call, ok := f.Cond.(*ssa.Call)
+		if !ok || !f.Val {
+			continue
+		}
+		h := core.Callee(call)
+		if h == nil || h.Pkg != a.start.Pkg || h.Blocks == nil {
+			continue
+		}
+		ld, st := statusAccesses(h)
+		if len(ld) > 0 && len(st) > 0 {
+			out = call
+		}
+	}
+	return out
+}
+
+func statusAccesses(fn *ssa.Function) (loads []*ssa.UnOp, stores []*ssa.Store) {
 	core.Instrs(fn, func(in ssa.Instruction) {
 		switch x := in.(type) {
 		case *ssa.UnOp:
@@ -209,7 +253,31 @@ func checkStartAtomic(p *core.Prog, r *core.Result, a *runnerAnchors) {
 			}
 		}
 	})
+	return
+}
+
+func checkStartAtomic(p *core.Prog, r *core.Result, a *runnerAnchors) {
+	fn := a.start
+	loads, stores := statusAccesses(fn)
 	construct := "runner.(*target).start#check-then-set"
+	// the test and the store may live in a claim helper whose result decides the spawn
+	var claim *ssa.Call
+	if len(loads) == 0 || len(stores) == 0 {
+		for _, c := range core.Calls(fn) {
+			if g, ok := c.(*ssa.Go); ok {
+				for _, pt := range p.EffectivePoints(g) {
+					if cl := claimHelperAt(p, a, pt); cl != nil {
+						claim = cl
+					}
+				}
+			}
+		}
+		if claim != nil {
+			fn = core.Callee(claim)
+			loads, stores = statusAccesses(fn)
+		}
+	}
+	li := p.Locks(fn)
 	if len(loads) == 0 || len(stores) == 0 {
 		r.Bad("R4.1", construct, p.Pos(fn.Pos()), "start does not both test and set target.status")
 		return
@@ -230,32 +298,47 @@ func checkStartAtomic(p *core.Prog, r *core.Result, a *runnerAnchors) {
 	}
 	r.Check(!split, "R4.1", construct, p.InstrPos(stores[0]), "the status test and the status store are in one critical section", "the mutex is released between testing status and setting it: two callers can both see idle and both spawn the target")
 	// spawn edge: the go statement holds the fact status == idle (0) from one of the loads
-	for _, c := range core.Calls(fn) {
+	isIdle := func(cond ssa.Value, val bool) bool {
+		b, ok := cond.(*ssa.BinOp)
+		if !ok {
+			return false
+		}
+		for _, pr := range [][2]ssa.Value{{b.X, b.Y}, {b.Y, b.X}} {
+			isLoad := false
+			for _, ld := range loads {
+				if pr[0] == ssa.Value(ld) {
+					isLoad = true
+				}
+			}
+			k, okc := core.ConstInt(pr[1])
+			if isLoad && okc && k == 0 {
+				return (b.Op == token.EQL && val) || (b.Op == token.NEQ && !val)
+			}
+		}
+		return false
+	}
+	for _, c := range core.Calls(a.start) {
 		g, ok := c.(*ssa.Go)
 		if !ok {
 			continue
 		}
 		idle := true
 		for _, pt := range p.EffectivePoints(g) {
-			idle = idle && p.FactsAt(pt).Find(func(cond ssa.Value, val bool) bool {
-				b, ok := cond.(*ssa.BinOp)
-				if !ok {
-					return false
-				}
-				for _, pr := range [][2]ssa.Value{{b.X, b.Y}, {b.Y, b.X}} {
-					isLoad := false
-					for _, ld := range loads {
-						if pr[0] == ssa.Value(ld) {
-							isLoad = true
-						}
-					}
-					k, okc := core.ConstInt(pr[1])
-					if isLoad && okc && k == 0 {
-						return (b.Op == token.EQL && val) || (b.Op == token.NEQ && !val)
+			if claim != nil {
+				// the helper's result is true at the spawn, and it returns true only when the tested status was idle
+				cl := claimHelperAt(p, a, pt)
+				okc := cl == claim
+				if okc {
+					rfs := p.CalleeReturnFacts(fn, true)
+					okc = len(rfs) > 0
+					for _, rf := range rfs {
+						okc = okc && rf.Facts.Find(isIdle)
 					}
 				}
-				return false
-			})
+				idle = idle && okc
+				continue
+			}
+			idle = idle && p.FactsAt(pt).Find(isIdle)
 		}
 		r.Check(idle, "R4.1", "runner.(*target).start#spawn-on-idle", p.InstrPos(g), "the target is spawned only when the tested status was idle", "the spawn is not conditioned on status == idle: a running or finished target can be spawned again")
 	}
@@ -265,6 +348,26 @@ func checkStartAtomic(p *core.Prog, r *core.Result, a *runnerAnchors) {
 func checkResultsWiring(p *core.Prog, r *core.Result, a *runnerAnchors) {
 	fn := a.evalTargets
 	waitCalls := core.CallsTo(fn, a.wait)
+	if len(waitCalls) == 0 {
+		// the wait loop may live in a helper whose result EvaluateTargets returns as it is
+		for _, c := range core.Calls(fn) {
+			call, ok := c.(*ssa.Call)
+			h := core.Callee(c)
+			if !ok || h == nil || h.Pkg != fn.Pkg || h.Blocks == nil || len(core.CallsTo(h, a.wait)) == 0 {
+				continue
+			}
+			returned := false
+			for _, ret := range core.ReturnsOf(fn) {
+				if vals := core.RetVals(ret); len(vals) == 1 && vals[0] == ssa.Value(call) {
+					returned = true
+				}
+			}
+			r.Check(returned, "R4.4", "runner.(*engine).EvaluateTargets#result-wiring:helper", p.InstrPos(call), "the results collected by "+fname(h)+" are returned as they are", "the results collected by "+fname(h)+" are not what EvaluateTargets returns")
+			fn = h
+			waitCalls = core.CallsTo(h, a.wait)
+			break
+		}
+	}
 	r.Floor("R4.4", len(waitCalls), 1, "(*target).wait calls in EvaluateTargets")
 	for _, wc := range waitCalls {
 		w := wc.(*ssa.Call)
@@ -425,7 +528,7 @@ func runC05(p *core.Prog, r *core.Result) {
 			continue
 		}
 		waitOnErr := false
-		for _, w := range core.CallsTo(fn, a.wait) {
+		for _, w := range waitSites(p, a) {
 			nn, known := p.FactsAt(w.(ssa.Instruction)).ErrNonNil(call)
 			if !(known && !nn) {
 				waitOnErr = true
@@ -505,7 +608,7 @@ func runC05(p *core.Prog, r *core.Result) {
 			}
 		}
 		nW := 0
-		for _, w := range core.CallsTo(a.evalTargets, waitFn) {
+		for _, w := range waitSites(p, a) {
 			nW++
 			ok := len(checks) > 0
 			for _, c := range checks {
@@ -523,11 +626,34 @@ func runC05(p *core.Prog, r *core.Result) {
 	checkWaitOutsideSlot(p, r, a, "R5.5")
 }
 
+// waitSites lists the points of EvaluateTargets at which dependencies are awaited: calls of (*target).wait, and
+// calls of helpers of the package that (statically, transitively) call it.
+func waitSites(p *core.Prog, a *runnerAnchors) []ssa.CallInstruction {
+	var out []ssa.CallInstruction
+	for _, c := range core.Calls(a.evalTargets) {
+		if _, isGo := c.(*ssa.Go); isGo {
+			continue
+		}
+		cal := core.Callee(c)
+		if cal == nil {
+			continue
+		}
+		if cal == a.wait {
+			out = append(out, c)
+			continue
+		}
+		if cal.Pkg == a.evalTargets.Pkg && cal.Blocks != nil && cal != a.check && cal != a.checkDeps && staticClosure(p, cal)[a.wait] {
+			out = append(out, c)
+		}
+	}
+	return out
+}
+
 // checkWaitOutsideSlot: in EvaluateTargets every wait() is dominated by gate.exit with no enter in between.
 func checkWaitOutsideSlot(p *core.Prog, r *core.Result, a *runnerAnchors, rule string) {
 	fn := a.evalTargets
 	exits := core.CallsTo(fn, a.exit)
-	for _, w := range core.CallsTo(fn, a.wait) {
+	for _, w := range waitSites(p, a) {
 		wi := w.(ssa.Instruction)
 		ok := false
 		for _, e := range exits {
